@@ -1,2 +1,80 @@
-import TeakraModel.Interp
-/-! C10 — placeholder; theorems in progress. -/
+import Proofs.C10.Basic
+import Proofs.C10.Mod
+import Proofs.C10.Wrap
+import Proofs.C10.Cyclic
+import Proofs.C10.Step
+import Proofs.C10.Rn
+import Proofs.C10.Lift
+/-!
+# C10 — address registers step linearly, modulo or bit-reversed exactly as configured
+
+"With modulo disabled, an address register post-modified by a step changes by exactly that step
+modulo 2^16 (or is zeroed, for r3/r7 in their end-pointer mode) while the access uses the
+pre-modified value; with modulo enabled, stepping by +1 or -1 walks cyclically through the aligned
+buffer [base, base+mod] and never alters address bits above the buffer's power-of-two alignment, in
+both Teak and TeakLite-compatible modes.  With bit reversal enabled and modulo off, the memory
+address is the 16-bit bit reversal of the register while the register itself steps linearly, and a
+zero step never changes the register."
+
+The theorems are about `Teakra.Interp.stepAmount / modStepNew / modStepLegacy / stepAddressPure /
+rnAddress / rnAndModify` (`StepAddress`, `RnAddress`, `RnAndModify` of `src/interpreter.h`).  They
+hold for every unit number, every 16-bit modulo value (the hardware register has 9 bits), every
+16-bit address and both values of `cmd`.  The proofs live in `Proofs/C10/*.lean`:
+
+| part of the property | theorems |
+|---|---|
+| `log2p1`, mask | `log2p1_spec`, `lowMask_toNat` (`Basic`) |
+| zero step | `step_zero`, `step_zero_amount` (`Step`), `zero_step_unchanged`, `zero_step_endPointer` (`Rn`) |
+| modulo disabled ⇒ linear | `step_linear`, `step_linear_increase/decrease/increase2/decrease2/plusStep`, `stepAmount_plusStep`, `signExtend16_toInt` (`Step`) |
+| modulo ±1, one-step functions | `modStepNew_inc/dec`, `modStepLegacy_inc/dec` (`Wrap`), `legacyMask_one/neg_one` (`Mod`), `modStepNew_stays`, `modStepLegacy_stays`, `modStepNew_cyclic`, `modStepLegacy_cyclic` (`Lift`) |
+| modulo ±1, `stepAddressPure` | `mod_inc`, `mod_dec`, `mod_stays_in_buffer`, `mod_cyclic`, `mod_cyclic_dec`, `mod_inc_dec_inverse` (`Lift`) |
+| high bits | `modStepNew_high`, `modStepLegacy_high`, `step_high_bits` (every step kind, every address, mask actually used), `mod_high_bits`, `mod_high_bits_unit`, `highBitsAlways_partial`; the unrestricted statement `HighBitsAlways` is false: `not_highBitsAlways` |
+| bit reversal | `bitReverse_involutive`, `bitReverse_getElem`, `rnAddress_brv`, `rnAddressAndModify_brv`, `rnAddressAndModify_plain` (`Rn`) |
+| `RnAndModify` | `rnAndModify_run`, `rnNext_normal`, `rnNext_endPointer`, `setRn_frame`, `setRn_same`, `setRn_other` (`Rn`) |
+-/
+namespace Teakra.Interp
+
+/-! ## non-vacuity: the hypotheses are met by concrete, non-trivial configurations -/
+
+-- masks: the 9-bit hardware range, the 16-bit extreme and zero
+example : log2p1 0x1FF = 9 ∧ log2p1 0x100 = 9 ∧ log2p1 0xFFFF = 16 ∧ log2p1 1 = 1 := by decide
+example : lowMask 5 = 7 ∧ lowMask 0x1FF = 0x1FF ∧ lowMask 0xFFFF = 0xFFFF ∧ lowMask 0 = 0 := by decide
+
+-- a buffer of 6 words at 0x1230: in-buffer addresses exist, and so do out-of-buffer ones
+example : InBuf 5 0x1234 ∧ InBuf 5 0x1235 ∧ ¬ InBuf 5 0x1236 := by decide
+
+/-- Teak mode, r0 with modulo on, `modi = 5`. -/
+private def rTeak : Regs := { cmd := 0, modi := 5, m := #v[1, 0, 0, 0, 0, 0, 0, 0] }
+/-- TeakLite mode, r5 with modulo on, `modj = 0x1FF`. -/
+private def rLite : Regs := { cmd := 1, modj := 0x1FF, m := #v[0, 0, 0, 0, 0, 1, 0, 0] }
+
+example : ModuloOn rTeak 0 false ∧ modOf rTeak 0 ≠ 0 ∧ InBuf (modOf rTeak 0) 0x1235 := by decide
+example : ModuloOn rLite 5 false ∧ modOf rLite 5 ≠ 0 ∧ InBuf (modOf rLite 5) 0xABFF := by decide
+-- the wrap really happens, in both modes and both directions
+example : stepAddressPure rTeak 0 0x1235 .increase false = 0x1230 := by decide
+example : stepAddressPure rTeak 0 0x1230 .decrease false = 0x1235 := by decide
+example : stepAddressPure rTeak 0 0x1233 .increase false = 0x1234 := by decide
+example : stepAddressPure rLite 5 0xABFF .increase false = 0xAA00 := by decide
+example : stepAddressPure rLite 5 0xAA00 .decrease false = 0xABFF := by decide
+-- the period theorem applies to it: 6 increments around the 6-word buffer
+example : Nat.repeat (fun x => stepAddressPure rTeak 0 x .increase false) 6 0x1233 = 0x1233 :=
+  mod_cyclic rTeak 0 0x1233 false (by decide) (by decide) (by decide)
+-- `dmod` or an unset `m` bit switch the same configuration to linear stepping
+example : ¬ ModuloOn rTeak 0 true ∧ ¬ ModuloOn rTeak 1 false := by decide
+example : stepAddressPure rTeak 0 0x1235 .increase true = 0x1236 := by decide
+example : stepAddressPure rTeak 1 0xFFFF .increase false = 0 := by decide
+
+-- bit reversal
+example : Alu.bitReverse 0x0001 = 0x8000 ∧ Alu.bitReverse 0x1234 = 0x2C48 := by decide
+private def rBrv : Regs := { br := #v[0, 0, 1, 0, 0, 0, 0, 0], stepi0 := 0x0100, r := #v[0, 0, 0x0080, 0, 0, 0, 0, 0] }
+example : brOf rBrv 2 ≠ 0 ∧ mOf rBrv 2 = 0 ∧ ¬ EndPointer rBrv 2 .plusStep := by decide
+example : plusStepAmount rBrv 2 = 0x0100 := by decide
+
+-- end-pointer mode: reachable, and it does change the register on a zero step
+private def rEp : Regs := { epi := 1, r := #v[0, 0, 0, 5, 0, 0, 0, 0] }
+example : EndPointer rEp 3 .zero ∧ EndPointer rEp 3 .plusStep ∧ ¬ EndPointer rEp 3 .increase2Mode1 ∧
+    ¬ EndPointer rEp 2 .zero := by decide
+example : rnNext rEp 3 .zero false = 0 ∧ rEp.r.toArray.getD 3 0 = 5 := by decide
+example : rnNext rEp 3 .increase2Mode1 false = 7 := by decide
+
+end Teakra.Interp
